@@ -77,6 +77,12 @@ add("C13", "exploration",
     "Trusts printer_for(Q) and M_fold (DESIGN.md A.1/A.3). The first parse is taken at face value: what the text *should* mean is C05/C08/C12's subject.",
     "DESIGN.md section 4/C13")
 
+add("C03", "exploration",
+    "exhaustive short byte strings + grammar/mutation/byte fuzzing under catch_unwind, and pathological nesting shapes in child processes on a 2 MiB stack",
+    "Exploration: every byte string of length <= 2 (<= 3 thorough) under representative and seeded option sets through 3 sources x 4 APIs; token-alphabet, mutation, string-literal and random-byte generators over all 1536 option sets; each parse runs under catch_unwind with an explicit cap of len+2 iterator calls. Process-level failures (stack overflow, abort) are observed by re-executing the harness as a child on a 2 MiB thread for 10^3..10^6 repetitions of every opener and of generated mixtures, unterminated and well-formed, and for hundreds of over-deep groups in one iterated stream followed by a shallow probe. The positive clause (depth <= 100 accepted through every construct and mixtures) is generated as well.",
+    "Absence of panics/aborts is shown for the inputs tried only. Watchdog expiry is reported as inconclusive (exit 2), never as a violation. The debug-assertions/overflow-checks profile is used so that wrap-arounds surface as panics.",
+    "DESIGN.md section 4/C03")
+
 NOT_YET = {}
 
 def main():
